@@ -15,9 +15,9 @@ theorem good_zero {f : Nat} (ih : Good f) (s : St) (c : Nat) (hi : Inv s) (hh : 
     have hsp := same_pop (zeroPre s c) .destroyed
     have he := ih ((zeroPre s c).pop .destroyed).2 (.ops c ((zeroPre s c).pop .destroyed).1.ops) (hsp.inv hiz) trivial
     have hd5 := (he.2 c).dead (by rw [hsp.conns]; exact hzp) (by rw [hsp.conns]; exact hzf)
-    obtain ⟨hi6, ho6, c1, c2, c3⟩ := zeroPost_ok he.1 c hd5.1 hd5.2
+    obtain ⟨hi6, ho6, c1, c2, c3, c4⟩ := zeroPost_ok he.1 c hd5.1 hd5.2
     have h0 := (hi.conn c).rc0 hr
-    refine ⟨hi6, Frame.of_vac c h0.2.2.2.2.2.1 hd h0.2.2.2.2.2.2 hn ?_ ?_ ?_ ?_⟩
+    refine ⟨hi6, Frame.of_vac c h0.2.2.2.2.2.1 hd h0.2.2.2.2.2.2 hn (by rw [c4]; simp) ?_ ?_ ?_ ?_⟩
     · rw [c1, (he.2 c).b1, hsp.conns, hb1]
     · rw [c2, (he.2 c).b2, hsp.conns, hb2]
     · rw [c3, (he.2 c).b3, hsp.conns, hb3]
@@ -69,7 +69,7 @@ theorem good_disc {f : Nat} (ih : Good f) (s : St) (c : Nat) (hi : Inv s) (hh : 
           obtain ⟨hi4, ho4, d1, d2, d3, hok4⟩ := closedDone_ok he.1 c h3' hrun.1 hph
           have he5 := ih _ (.zero c) hi4 hok4
           rw [hret] at hf2
-          refine ⟨he5.1, Frame.of_vac c hnr hnd hna.1 hna.2 ?_ ?_ ?_ ?_⟩
+          refine ⟨he5.1, Frame.of_vac c hnr hnd hna.1 hna.2 ((he5.2 c).nn hok4.1) ?_ ?_ ?_ ?_⟩
           · rw [(he5.2 c).b1, d1, (he.2 c).b1, (hf2 c).b1]
           · rw [(he5.2 c).b2, d2, (he.2 c).b2, (hf2 c).b2]
           · rw [(he5.2 c).b3, d3, (he.2 c).b3, (hf2 c).b3]
@@ -81,8 +81,8 @@ theorem good_disc {f : Nat} (ih : Good f) (s : St) (c : Nat) (hi : Inv s) (hh : 
             rw [hrun.2, hph2]; simp [hret]
           have hb : (p.1.ret != 0) = true := by simp [hret]
           simp only [hb, ↓reduceIte]
-          obtain ⟨hi4, ho4, d1, d2, d3⟩ := closedRetry_ok he.1 c hrun.1 hph
-          refine ⟨hi4, Frame.of_vac c hnr hnd hna.1 hna.2 ?_ ?_ ?_ ?_⟩
+          obtain ⟨hi4, ho4, d1, d2, d3, d4⟩ := closedRetry_ok he.1 c hrun.1 hph
+          refine ⟨hi4, Frame.of_vac c hnr hnd hna.1 hna.2 (by rw [d4]; simp) ?_ ?_ ?_ ?_⟩
           · rw [d1, (he.2 c).b1, (hf2 c).b1]
           · rw [d2, (he.2 c).b2, (hf2 c).b2]
           · rw [d3, (he.2 c).b3, (hf2 c).b3]
